@@ -7,7 +7,7 @@ def main() -> int:
     import mpmath
     mpmath.mp.prec = 400
     rng = random.Random(7)
-    d = common.Driver()
+    d = common.Driver("C12")
     fns = {"sqrt": mpmath.sqrt, "exp": mpmath.exp, "log": mpmath.log, "sin": mpmath.sin, "cos": mpmath.cos,
            "atan": mpmath.atan}
     lines, expect = [], []
